@@ -4,6 +4,7 @@ import (
 	"fmt"
 	"runtime"
 	"runtime/debug"
+	"time"
 
 	"verifharness/core"
 	"verifharness/dyn"
@@ -104,6 +105,25 @@ func runC18(c *core.Ctx) {
 		// one large shape (more than 64 KiB of samples for 32- and 64-bit types)
 		for _, p := range t.Probes(8, 2100) {
 			check(p, 8, 2100)
+		}
+	}
+	// a cycle that starts some time after the previous put: the time a buffer
+	// spent in the pool is not a reason to allocate (one batch, three types)
+	if c.Mine(0) {
+		for _, ti := range []int{1, 9, 12} {
+			t := dyn.Types[ti]
+			name := "pool-cycle-1.25s-after-the-previous-put[" + t.Name + "]"
+			if !c.Want(name) {
+				continue
+			}
+			c.Eval(1)
+			m := t.IdleCycle(1250*time.Millisecond, 3)
+			c.Obs("operations_measured", 1)
+			c.Obs("pool_cycles_measured_after_an_idle_pause", 1)
+			if m > 0 {
+				c.Violate(name+"|allocates", name, fmt.Sprintf("%d heap allocations in one get/put cycle that started 1.25 s after the previous put (minimum of 3 repetitions); allowed 0", m),
+					map[string]any{"operation": name, "mallocs": m, "pause_ms": 1250})
+			}
 		}
 	}
 	for ai := 0; ai < dyn.NBuiltin; ai++ {
